@@ -6,6 +6,8 @@
             old(out)@.len() == 0,
             // P1: bytes_read + len must not wrap; true for every limit below 2^63 on 64-bit targets
             this0.cap <= usize::MAX - isize::MAX as usize,
+            // the drain counter of http_dump_body cannot wrap: bodies below 2^64 bytes
+            total(data_chunks(this0.body.frames@)) <= usize::MAX,
         ensures
             // C11 "No handler, buffered or streaming, ever observes more body bytes than the limit"
             total(yielded(final(out)@)) <= this0.cap, // @never_observes_more_than_the_limit
@@ -27,6 +29,7 @@
                     bytes_read as nat == total(yielded(out@)), // @inv_bytes_read_counts_exactly_what_was_yielded
                     yielded(out@) + data_chunks(this.body.frames@) == data_chunks(this0.body.frames@), // @inv_yielded_plus_remaining_is_what_was_sent
                     has_error(this.body.frames@) == has_error(this0.body.frames@), // @inv_no_error_consumed
+                    total(data_chunks(this0.body.frames@)) <= usize::MAX,
                 ensures
                     this.body.frames@.len() == 0,
 //@ loop 0 body_start
@@ -49,6 +52,9 @@
                         _ => {}
                     }
                     assert forall|b: Bytes| #[trigger] yielded(out@.push(b)) =~= yielded(out@).push(b.data@) by {}
+                    // what is left to drain is part of what was sent
+                    total_concat(yielded(out@), data_chunks(seq![frame_result_spec(frame_res)] + cur));
+                    total_concat(seq![Seq::<u8>::empty()], data_chunks(cur));
                 }
 //@ before "Ok(())" 0
         proof {
